@@ -39,6 +39,16 @@ def quoter_outputs(prog):
             v = strip_refs(qb.expr_operand(t["args"][1]))
             if is_const(v, "char"):
                 out.add(const_val(v))
+    # text the quoter puts in through string-level calls (`part.replace("--", "—")`, push_str of a literal)
+    for (bb, t) in qb.calls():
+        n_ = callee_name(t)
+        if any(n_.endswith(s_) for s_ in ("::replace", "::replacen", "String::push_str", "String::insert_str", "String::insert", "::replace_range")):
+            for a_ in t["args"][1:]:
+                v = strip_refs(qb.expr_operand(a_))
+                if is_const(v, "str"):
+                    out.update(const_val(v))
+                elif is_const(v, "char"):
+                    out.add(const_val(v))
     for ck in prog.closures_of(q) + [c for g in (qb.fn.get("inlined") or []) for c in prog.closures_of(g)]:
         cb = prog.body(ck)
         if cb.locals[0]["ty"] != "char":
@@ -249,7 +259,17 @@ def run(ctx):
     for f in ("preceding", "trailing"):
         if f not in seen_fields and ("map:%s" % f) not in [i["key"] for i in r1.instances]:
             r1.violation("map:%s" % f, "no per-character map found that rebuilds the %s part" % f, common.fn_line(prog, q))
-    r1.floor(4, "frame, bypass, two character maps")
+    # nothing but the two per-character maps edits the parts
+    edits = [(bb_, callee_name(t_)) for (bb_, t_) in qb.calls()
+             if any(callee_name(t_).endswith(s_) for s_ in ("str>::replace", "str>::replacen", "::replace_range", "::to_uppercase", "::to_lowercase", "::to_ascii_uppercase",
+                                                           "::to_ascii_lowercase", "String::retain", "String::remove", "String::insert", "String::insert_str", "String::truncate",
+                                                           "str>::trim", "str>::trim_start", "str>::trim_end", "str>::trim_matches", "str>::trim_start_matches", "str>::trim_end_matches"))]
+    if edits:
+        r1.violation("other-edit", "besides the two per-character maps the quoter edits the text with %s — smart quotes change the quotes that wrap a word and nothing else"
+                     % edits[0][1].split("::")[-1], site_of(qb, edits[0][0]))
+    else:
+        r1.ok("other-edit", "no string-level edit (replace / trim / case / insert / remove) in the quoter")
+    r1.floor(5, "frame, bypass, two character maps, other-edit")
 
     # ---------------- R2 / R3 in the builders
     r2 = chk.rule("C17.R2", "quoter applied exactly under the option, once, after split/conversion and before every consumer",
